@@ -246,13 +246,13 @@ def budgets_and_switches(chk, R, rng, n, tag):
     return dist, ndis
 
 
-def assert_constants(chk, R, rng, n, tag):
+def assert_constants(chk, R, rng, n, tag, gen=None, name="assert_constants"):
     """family of /repo b4e61a4 (F77) and of the #assert DIRECTIVE (resolver/assert.rs): constants holding assertions and
     `#assert` directives over addresses / labels / constants / banks (global and nested, used and unused, a few label-free
     programs) x budgets 1..4: implementation with the static optimisation OFF = model including the pass count; with the
     optimisation ON = model too, except the F70 class (one pass instead of two, no labels, no #assert); a success must be reproduced at every larger budget"""
     budgets = [1, 2, 3, 4]
-    progs = [(asm2_gen.gen_assert_prog(rng), rng.chance(0.5)) for _ in range(n)]
+    progs = [((gen or asm2_gen.gen_assert_prog)(rng), rng.chance(0.5)) for _ in range(n)]
     icases, mcases, scases = [], [], []
     for (p, m) in progs:
         t = p.text()
@@ -274,7 +274,7 @@ def assert_constants(chk, R, rng, n, tag):
                "impl": [str(sig(r))[:300] + " it=%s" % r[2] for r in res], "model": [x[:300] for x in ma[pi * k:(pi + 1) * k]]}
         chk.nontriv(text)
         if any(r[0] not in ("OK", "ERR") for r in res):
-            chk.violation("implementation crashed or was inconsistent (assertion constants)", rep)
+            chk.violation("implementation crashed or was inconsistent (%s)" % name, rep)
             continue
         oks = [j for j, r in enumerate(res) if r[0] == "OK"]
         dist["ok" if res[-1][0] == "OK" else "err"] += 1
@@ -283,7 +283,7 @@ def assert_constants(chk, R, rng, n, tag):
         bad = False
         for j in oks:
             if res[j][2] > budgets[j] or any(sig(res[j2]) != sig(res[j]) for j2 in range(j + 1, k)):
-                chk.violation("budget %d succeeds but a larger budget differs / pass count above budget (assertion constants)" % budgets[j], rep)
+                chk.violation("budget %d succeeds but a larger budget differs / pass count above budget (%s)" % (budgets[j], name), rep)
                 bad = True
                 break
         if bad:
@@ -291,6 +291,15 @@ def assert_constants(chk, R, rng, n, tag):
         # static optimisation ON: identical to the model (pass count included) except for the F70 class: a label-free
         # program converges in pass 1 at budget 1 (same observable result as the model at budget 2)
         son = [asm2_gen.canon_impl(x) for x in sa[pi * k:(pi + 1) * k]]
+        # ... and budget monotonicity of the implementation with the optimisation ON as well
+        for j in range(k):
+            if son[j][0] == "OK" and (son[j][2] > budgets[j] or any(sig(son[j2]) != sig(son[j]) for j2 in range(j + 1, k))):
+                chk.violation("static optimisation ON: budget %d succeeds but a larger budget differs / pass count above budget (%s)" % (budgets[j], name),
+                              dict(rep, static_opt=True, impl=[str(sig(r))[:300] + " it=%s" % r[2] for r in son]))
+                bad = True
+                break
+        if bad:
+            continue
         for j in range(k):
             if son[j] == mod[j]:
                 continue
@@ -301,20 +310,20 @@ def assert_constants(chk, R, rng, n, tag):
                 chk.known("F70", F70_TEXT)
                 continue
             ndis += 1
-            chk.violation("with the static optimisation ON the implementation differs from the model at budget %d (assertion family): impl %s model %s"
-                          % (budgets[j], str(son[j])[:300], str(mod[j])[:300]),
+            chk.violation("with the static optimisation ON the implementation differs from the model at budget %d (%s): impl %s model %s"
+                          % (budgets[j], name, str(son[j])[:300], str(mod[j])[:300]),
                           dict(rep, static_opt=True, impl_static_on=[str(sig(r))[:300] + " it=%s" % r[2] for r in son]))
             break
         for j in range(k):
             if res[j] != mod[j]:
                 ndis += 1
-                chk.violation("Resolver2 model/implementation correspondence broken at budget %d (assertion constants): impl %s model %s"
-                              % (budgets[j], str(res[j])[:300], str(mod[j])[:300]),
+                chk.violation("Resolver2 model/implementation correspondence broken at budget %d (%s): impl %s model %s"
+                              % (budgets[j], name, str(res[j])[:300], str(mod[j])[:300]),
                               dict(rep, theorems=["C02b_certificate", "C02b_constant_not_failed", "C09b_monotone"]), found=False)
                 break
         if pi % max(1, n // 2) == 1:
             chk.sample({"program": text, "results": rep["impl"]})
-    chk.count("resolver2_assert_constants_x_budgets" + tag, 2 * len(icases), **dist)
+    chk.count("resolver2_" + name + "_x_budgets" + tag, 2 * len(icases), **dist)
     chk.cov["traces_validated_against_impl"] += len(icases)
     chk.cov["disagreements_checked"] += ndis
     return dist, ndis
@@ -338,6 +347,9 @@ def run_streams(chk, quick, which=("correspondence", "budgets", "layout")):
     if "budgets" in which:
         out["budgets"] = budgets_and_switches(chk, R, rng.fork("budgets"), 300 if quick else 2500, "")
         out["asserts_b"] = assert_constants(chk, R, rng.fork("asserts-b"), 250 if quick else 2500, "_b")
+        # bank-range boundaries (#addr below / at / past the bank, #res and #align reaching its end), half of them label-free,
+        # x budgets 1..4 x both static settings: impl = model at every budget, monotone in the budget under both settings
+        out["boundary"] = assert_constants(chk, R, rng.fork("boundary"), 400 if quick else 4000, "", gen=asm2_gen.gen_boundary_prog, name="bank_boundaries")
     if "layout" in which:
         out["layout"] = correspondence(chk, R, rng.fork("layout"), 1000 if quick else 8000, "_banks", need_banks=True)
     if "nonwritable" in which or "layout" in which:
@@ -378,6 +390,8 @@ if __name__ == "__main__":
     t3 = time.time()
     d4 = assert_constants(chk, R, rng.fork("asserts-c"), max(1, n // 8), "")
     print("assertion constants (%d programs x budgets 1..4): %s" % (max(1, n // 8), d4))
+    d6 = assert_constants(chk, R, rng.fork("boundary"), max(1, n // 5), "", gen=asm2_gen.gen_boundary_prog, name="bank_boundaries")
+    print("bank boundaries (%d programs x budgets 1..4 x static off/on): %s" % (max(1, n // 5), d6))
     d5 = correspondence(chk, R, rng.fork("nonwritable"), max(1, n // 5), "_nonwritable", gen=asm2_gen.gen_nonwritable_prog)
     print("non-writable banks (%d programs): %s" % (max(1, n // 5), d5))
     d3 = correspondence(chk, R, rng.fork("layout"), max(1, n // 2), "_banks", need_banks=True)
